@@ -156,6 +156,10 @@ class World:
         s.t_ret = time.monotonic()
         s.status = r.status
         s.broken = r.broken
+        if r.broken in ("timeout", "server-died") and self.res is not None:
+            self.res.count("request_" + r.broken)
+            if len([x for x in self.res.inconclusive if x.startswith("request ")]) < 3:
+                self.res.inconclusive.append("request %s: %s %s" % (r.broken, method, target[:80]))
         s.eff, s.err = X.effective_status(method, r)
         s.resp_headers = r.headers
         if record:
